@@ -569,3 +569,17 @@ func (p *DestructionPP) RequireDestruction(c any) bool {
 	_, ok := c.(interface{ NeedsDestructionCallback() })
 	return ok
 }
+
+// NeedyPP: an eager component post-processor (unordered) with a REQUIRED injection point of its own.
+type NeedyPP struct {
+	processors.DefaultComponentPostProcessor
+	Nm  string
+	Req IA `wire:"needy-dep"`
+}
+
+func (p *NeedyPP) Naming() string { return p.Nm }
+
+// NeedyPPOrdered: the same, ordered behind the built-in resolvers.
+type NeedyPPOrdered struct{ NeedyPP }
+
+func (p *NeedyPPOrdered) Order() int { return 1000 }
